@@ -703,7 +703,7 @@ class Process:
                     if is_zombie(self.pid):
                         raise ZombieProcess(pid, name, ppid) from err
                     if not pid_exists(self.pid):
-                        raise NoSuchProcess(pid, name, ppid) from err
+                        raise NoSuchProcess(pid, name) from err
                     # XXX: this happens with unicode tests. It means the C
                     # routine is unable to decode invalid unicode chars.
                     debug(f"ignoring {err!r} and returning an empty list")
